@@ -56,6 +56,7 @@ type Client struct {
 	After     int    `json:"after,omitempty"`
 	Exch      []Exch `json:"exch"`
 	Spoof     int    `json:"spoof,omitempty"`      // forged foreign-ID datagrams injected towards this client
+	Repoint   bool   `json:"repoint,omitempty"`    // tcp: the client's dns.Conn value was first tried over a datagram socket (a read that timed out, nothing sent) and is then pointed at the stream connection: the fall-back from UDP to TCP with one Conn
 	Pipeline  bool   `json:"pipeline,omitempty"`   // tcp: all queries are written before any reply is read; the handlers answer asynchronously
 	IntrFrame int    `json:"intr_frame,omitempty"` // with Pipeline: 1-based number of the query frame in which the server's read is interrupted once (a temporary, non-timeout error)
 	IntrOff   int    `json:"intr_off,omitempty"`   // ... after this many octets of that frame (0 before the length prefix, 1 between its octets, 2 behind it, more: inside the message)
@@ -224,6 +225,9 @@ func Gen(seed uint64, tier string) any {
 		}
 		if c.Net == "udp" && core.Chance(r, 30) {
 			c.Spoof = core.Pick(r, 1, 2, 3, 9, 20)
+		}
+		if c.Net == "tcp" && core.Chance(r, 10) {
+			c.Repoint = true
 		}
 		if c.Net == "udp" && sc.Homes > 1 {
 			c.Home = r.IntN(sc.Homes)
@@ -1045,6 +1049,17 @@ func (c *clientTask) RunEvent(time.Time) {
 	if plan.Net == "tcp" {
 		sconn = x.n.Dial(x.l, true)
 		co = &dns.Conn{Conn: sconn}
+		if plan.Repoint {
+			// the Conn's first life was a datagram socket on which nothing came back in time
+			d := x.n.DialUDP(x.uc, 0)
+			co = &dns.Conn{Conn: d}
+			d.SetReadDeadline(time.Now().Add(-time.Second))
+			if _, err := co.ReadMsg(); err != nil {
+				k.Bump("fault.conn_value_repointed_from_datagram_to_stream")
+			}
+			d.Close()
+			co.Conn = sconn
+		}
 	} else {
 		dconn = x.n.DialUDP(x.uc, plan.Home%x.homes)
 		co = &dns.Conn{Conn: dconn}
